@@ -525,6 +525,13 @@ def make_case(spec):
 
 def build_model(spec):
     from mlinsights.mlmodel.decision_tree_logreg import DecisionTreeLogisticRegression
+    if spec.get("via_set_params"):
+        # the same configuration reached through set_params on a default-constructed instance (as a grid search does)
+        m = DecisionTreeLogisticRegression(make_estimator(spec["est"]))
+        m.set_params(max_depth=spec["max_depth"], min_samples_split=spec["mss"], min_samples_leaf=spec["msl"],
+                     min_weight_fraction_leaf=spec["mwfl"], fit_improve_algo=spec["algo"], p1p2=spec["p1p2"],
+                     gamma=spec["gamma"])
+        return m
     return DecisionTreeLogisticRegression(
         make_estimator(spec["est"]), max_depth=spec["max_depth"], min_samples_split=spec["mss"],
         min_samples_leaf=spec["msl"], min_weight_fraction_leaf=spec["mwfl"], fit_improve_algo=spec["algo"],
@@ -926,6 +933,10 @@ def search(ctx, hints):
             sp["est"] = rng.choice(["tree1", "tree2", "tree_leaf"])
         if t % 5 == 0:
             sp["labels_obj"] = list(rng.choice(SEARCH_LABELS))
+        if t % 4 == 1:
+            sp["via_set_params"] = True
+            if t % 8 == 1:
+                sp["max_depth"] = rng.choice([1, 2])        # shallower than the constructor default
         specs.append(sp)
     for sp in specs:
         if rejected(sp):
